@@ -25,9 +25,9 @@ func init() {
 		ID:    "C16",
 		Level: "exploration",
 		Rule: "case = (structured rule description, rendering style) or (description, base rendering, delimiter occurrence, delete|duplicate); " +
-			"descriptions: target axis (every 1-2 element target list over 13 targets + 5 exclusions; thorough: + triples) x 2 operators, " +
+			"descriptions: target axis (every 1-2 element target list over 14 targets + 5 exclusions; thorough: + triples) x 2 operators, " +
 			"operator axis (every argument string up to length 3 (thorough 4) over {a,space,\",\\,',comma,colon,@,!} x negation), " +
-			"action axis (id/phase/disruptive head x 1-2 value-carrying actions over 9 text values, in both positions) x {SecRule, SecAction}; " +
+			"action axis (id/phase/disruptive head x 1-2 value-carrying actions over 10 text values, in both positions) x {SecRule, SecAction}; " +
 			"styles: token layer = directive case(3) x action-name case(3) x value quoting(2) x comma spacing(2) for every description, " +
 			"layout layer = every set of <=2 continuations over all token boundaries x indentation(2) x CRLF(2) x comment/blank lines(2) x placement(inline, Include, nested quoted Include in a sub directory, glob Include) x final newline(2) for the designated descriptions, " +
 			"plus a 70 kB comment line; every evaluation compiles the text with the real parser and runs the probe battery; " +
